@@ -103,6 +103,14 @@ Fixpoint run_wire (fuel : nat) (mn mx : Z) (l : list Z) : list Z :=
           if path =? 3 then
             let '(acc, p0, p1, wait) := announce_fetch E now mn mx aux adv in
             [o_bool acc; o_dl now (d_shards (announce E now mn mx 0)); o_bool p0; o_bool p1; wait] ++ run_wire f mn mx l
+          else if path =? 4 then
+            (* a first manifest for the same chunk id, expiring aux whole seconds after the whole second, was ingested just
+               before: publish_shards REPLACES the key-share record, so a manifest that is taken leaves its own deadline
+               whatever the earlier one was; a refused one leaves the earlier state *)
+            let dA := ingest (1000 * ns + aux * ns) now mn mx in
+            let dB := ingest E now mn mx in
+            let d := if accepted dB then dB else dA in
+            [o_bool (accepted d); o_dl now (d_shards d); o_dl now (d_replica d); o_dl now (d_replica d); o_dl now (d_contact d)] ++ run_wire f mn mx l
           else
           let d := if path =? 0 then ingest E now mn mx else if path =? 1 then receive E now mn mx else announce E now mn mx adv in
           [o_bool (accepted d); o_dl now (d_shards d); o_dl now (d_replica d); o_dl now (d_replica d); o_dl now (d_contact d)] ++ run_wire f mn mx l
